@@ -1,4 +1,5 @@
 import Restic.Model.TreeCodec
+import Restic.Gen.Source
 /-!
 # C41 — Trees are encoded deterministically and without loss
 
@@ -725,7 +726,7 @@ theorem initLoop_pre (pre : List (Bytes × Bytes)) (hp : ∀ m ∈ pre, KeyOK m.
           simp [initLoop, skipComma, skipWS, isWS]
       simp only [renderPre, List.append_assoc, List.cons_append, List.nil_append] at hs hval hcont ⊢
       simp only [initLoop, skipComma, skipWS, isWS]
-      simp only [List.append_assoc, List.cons_append, List.nil_append, List.reverse_nil] at hs
+      simp only [List.nil_append, List.reverse_nil] at hs
       simp [hs, expect, skipWS, isWS, hk1, hval, hcont]
 
 theorem tailLoop_post (post : List (Bytes × Bytes)) (hp : ∀ m ∈ post, KeyOK m.1 ∧ ValOK m.2)
@@ -788,5 +789,121 @@ theorem unknown_keys_ignored (pre post : List (Bytes × Bytes))
   simp only [decodeRaw, hinit]
   rw [iterAll_join' _ hS encs h]
   simp; omega
+
+/-! ### the transcription meets the executable statements -/
+
+def pairsOf (names encs : List Bytes) : List (Bytes × Bytes) := names.zip encs
+
+theorem strictSorted_cons (x : Bytes) (r : List (Bytes × Bytes)) :
+    strictSorted (x :: r.map (·.1)) = true ↔ bytesLt [] x = true ∧ sortedFrom x r := by
+  induction r generalizing x with
+  | nil => simp [strictSorted, sortedFrom]
+  | cons p r ih =>
+    obtain ⟨y, e⟩ := p
+    simp only [List.map_cons, strictSorted, Bool.and_eq_true, ih y, sortedFrom]
+    constructor
+    · rintro ⟨⟨h1, h2⟩, _, h4⟩; exact ⟨h1, h2, h4⟩
+    · rintro ⟨h1, h2, h4⟩
+      refine ⟨⟨h1, h2⟩, ?_, h4⟩
+      cases y with
+      | nil => rw [bytesLt_nil_right] at h2; cases h2
+      | cons c cs => rfl
+
+theorem strictSorted_iff (l : List (Bytes × Bytes)) :
+    strictSorted (l.map (·.1)) = true ↔ sortedFrom [] l := by
+  cases l with
+  | nil => simp [strictSorted, sortedFrom]
+  | cons p r =>
+    obtain ⟨x, e⟩ := p
+    simp only [List.map_cons, strictSorted_cons, sortedFrom]
+
+/-- what the driver computes from a built blob: the raw values if iteration ended cleanly -/
+def decodedOf (built : Option Bytes) : Option (List Bytes) :=
+  match built with
+  | none => none
+  | some b =>
+    match decodeRaw b with
+    | some (raws, true) => some raws
+    | _ => none
+
+/-- **model ⇒ specTree**: builder + iterator of the model satisfy the executable statement for
+    every list of entries (sorted or not), given J3 for the encodings -/
+theorem model_meets_specTree (l : List (Bytes × Bytes)) (h : ∀ e ∈ l.map (·.2), Obj e) :
+    specTree (l.map (·.1)) (l.map (·.2)) (buildTree (withSome l)) (decodedOf (buildTree (withSome l))) = true := by
+  by_cases hs : sortedFrom [] l
+  · have hss := (strictSorted_iff l).mpr hs
+    have hd := decodeRaw_build _ h
+    simp only [List.append_assoc] at hd
+    simp [specTree, buildTree_sorted l hs, decodedOf, hd, hss]
+  · have hss : strictSorted (l.map (·.1)) = false := by
+      cases hx : strictSorted (l.map (·.1)) with
+      | false => rfl
+      | true => exact absurd ((strictSorted_iff l).mp hx) hs
+    simp [specTree, buildTree_unsorted l hs, hss]
+
+/-- **model ⇒ specNode** -/
+theorem model_meets_specNode {o : Oracles} {canon : List (Bytes × Bytes) → Prop} (L : Laws o canon)
+    (n : Node) (b : Bytes) (hok : NodeOK o canon n) (hm : marshalNode o n = .ok b) :
+    specNode n (unmarshalNode o b) = true := by
+  obtain ⟨h1, h2, h3, h4⟩ := hok
+  simp [specNode, node_roundtrip L n b h1 h2 h3 h4 hm]
+
+/-! ### T1: facts regenerated from the source on every run -/
+
+/-- `MarshalJSON` fixes the three timestamps, quotes the name and tests the link target before
+    handing the struct to `json.Marshal`; `UnmarshalJSON` unquotes after `json.Unmarshal` -/
+theorem marshal_call_order :
+    (Restic.Gen.Node_MarshalJSON_calls.count "fixTime" = 3) ∧
+    (Restic.Gen.Node_MarshalJSON_calls.idxOf "strconv.Quote" < Restic.Gen.Node_MarshalJSON_calls.idxOf "json.Marshal") ∧
+    (Restic.Gen.Node_MarshalJSON_calls.idxOf "utf8.ValidString" < Restic.Gen.Node_MarshalJSON_calls.idxOf "json.Marshal") ∧
+    "json.Marshal" ∈ Restic.Gen.Node_MarshalJSON_calls ∧
+    (Restic.Gen.Node_UnmarshalJSON_calls.idxOf "json.Unmarshal" < Restic.Gen.Node_UnmarshalJSON_calls.idxOf "strconv.Unquote") ∧
+    "strconv.Unquote" ∈ Restic.Gen.Node_UnmarshalJSON_calls := by decide
+
+/-- the tree saver takes each future (in the `range nodes` loop) before it adds the node, and
+    finalizes afterwards; the directory entries were sorted by `sort.Strings` -/
+theorem saver_call_order :
+    (Restic.Gen.treeSaver_save_calls.idxOf "fn.take" < Restic.Gen.treeSaver_save_calls.idxOf "builder.AddNode") ∧
+    (Restic.Gen.treeSaver_save_calls.idxOf "builder.AddNode" < Restic.Gen.treeSaver_save_calls.idxOf "builder.Finalize") ∧
+    "builder.Finalize" ∈ Restic.Gen.treeSaver_save_calls ∧
+    "fnr.node.Equals" ∈ Restic.Gen.treeSaver_save_calls ∧
+    "sort.Strings" ∈ Restic.Gen.dirToNodeAndEntries_calls ∧
+    "json.Marshal" ∈ Restic.Gen.TreeJSONBuilder_AddNode_calls := by decide
+
+/-! ### Non-vacuity: the hypotheses are satisfiable by a non-trivial instance -/
+
+/-- a toy oracle: quoting adds quotes, everything is "valid", and the JSON codec knows one node -/
+def exNode : Node :=
+  { name := [97, 255], linkTarget := [255], raw := none,
+    mtime := ⟨2024, [1]⟩, atime := ⟨0, []⟩, ctime := ⟨9999, [2]⟩,
+    typ := [102], user := [117], group := [], error := [], xattrs := [([120], [0, 255])], generic := [],
+    nums := [420, 1000], content := some [[1, 2]], subtree := none }
+
+def exEnc : Bytes := [123, 34, 97, 34, 58, 34, 125, 34, 125]   -- {"a":"}"}
+
+def exOracles : Oracles :=
+  { quote := fun s => 34 :: (s ++ [34]),
+    unquote := fun q => some ((q.drop 1).dropLast),
+    validUTF8 := fun s => s.all (· < 128),
+    jsonEnc := fun v => if v = wrapNode
+        { quote := fun s => 34 :: (s ++ [34]), unquote := fun _ => none, validUTF8 := fun s => s.all (· < 128),
+          jsonEnc := fun _ => none, jsonDec := fun _ => none } exNode then some exEnc else none,
+    jsonDec := fun b => if b = exEnc then some { exNode with name := [97, 255], raw := some [255] } else none }
+
+example : marshalNode exOracles exNode = .ok exEnc := by decide
+example : unmarshalNode exOracles exEnc = some exNode := by decide
+example : specNode exNode (unmarshalNode exOracles exEnc) = true := by decide
+/-- the scanner treats `{"a":"}"}` as one object whatever follows (J3 instance) -/
+example : Obj exEnc := by
+  refine ⟨⟨_, rfl⟩, fun rest => ?_⟩
+  simp [exEnc, scanValue, skipWS, isWS, scanComp]
+example : buildTree [([97], some exEnc), ([98], some exEnc)] =
+    some (treePrefix ++ exEnc ++ [44] ++ exEnc ++ treeSuffix) := by decide
+example : decodeRaw (treePrefix ++ exEnc ++ [44] ++ exEnc ++ treeSuffix) = some ([exEnc, exEnc], true) := by decide
+example : buildTree [([98], some exEnc), ([97], some exEnc)] = none := by decide
+example : buildTree [([], some exEnc)] = none := by decide
+example : treeSave [.node ⟨[97], some exEnc, 1⟩, .excluded, .node ⟨[97], some exEnc, 1⟩, .failed false true,
+    .node ⟨[98], some exEnc, 2⟩] = .ok (treePrefix ++ exEnc ++ [44] ++ exEnc ++ treeSuffix) 2 := by decide
+example : treeSave [.node ⟨[97], some exEnc, 1⟩, .node ⟨[97], some exEnc, 7⟩] = .err "order" := by decide
 
 end Restic.Props.C41
